@@ -11,6 +11,16 @@ import json
 import math
 import os
 import subprocess
+
+
+def _lift_memory_limit():
+    """preexec hook of sanitizer children: undo the shard's soft address-space limit (ASan reserves terabytes)."""
+    try:
+        import resource
+        soft, hard = resource.getrlimit(resource.RLIMIT_AS)
+        resource.setrlimit(resource.RLIMIT_AS, (hard, hard))
+    except Exception:
+        pass
 import sys
 import warnings
 
@@ -1096,7 +1106,7 @@ def spawn(items, asan=False, timeout=900):
     cmd = [PY, os.path.abspath(__file__), "--child"]
     try:
         p = subprocess.run(cmd, input=json.dumps(items), capture_output=True, text=True, cwd=VERIF, env=env,
-                           timeout=timeout)
+                           timeout=timeout, preexec_fn=_lift_memory_limit)
         out, err, rc = p.stdout, p.stderr, p.returncode
     except subprocess.TimeoutExpired as e:
         out = e.stdout.decode() if isinstance(e.stdout, bytes) else (e.stdout or "")
